@@ -901,6 +901,10 @@ impl<'a, 'b, 'c> World<'a, 'b, 'c> {
 				for chan in chans {
 					for id in self.pending_of(n, &chan) {
 						self.complete(n, chan, id);
+						// let the manager see this MonitorEvent::Completed before the next completion:
+						// a relaxed persister may answer Completed again only once the manager has
+						// nothing of the channel in flight
+						self.drain();
 						any = true;
 					}
 				}
@@ -1156,6 +1160,9 @@ fn run_schedule(line: &str) {
 				for n in 0..nn {
 					sub.push(format!("fwd {}", n));
 					sub.push(format!("claim {} 0", n));
+				}
+				if !world.funding_txs.is_empty() {
+					sub.push("confirm".to_string());
 				}
 				let mut any = false;
 				for s in sub {
